@@ -5,11 +5,7 @@
 # mathematical integer Python would compute (DESIGN.md section 3.2).
 import z3
 
-class EngineError(Exception):
-    """the engine cannot faithfully continue (unsupported construct, leak): obligation is UNDECIDED"""
-
-class LeakError(EngineError):
-    pass
+from .errors import EngineError, LeakError
 
 def bits_for(lo, hi):
     """(width, signed) needed to represent every integer in [lo,hi] exactly"""
